@@ -237,15 +237,33 @@ def r1(R, tus):
     for st, x in cfront.all_exprs(cm.body):
         pass
     cmdefs = {k: v for k, v in cfront.scalar_defs(cm).items() if any(x.k == "var" and x.name == b for x in ewalk(v))}
+    # row pointers into the table (p = b; p += NPROPERTY in the loop header, or p = &b[off]): every pointer variable assigned from an
+    # expression based on b, or on another such pointer, addresses the same table
+    alias = {b}
+    grew = True
+    while grew:
+        grew = False
+        for st, x in cfront.all_exprs(cm.body):
+            if x.k == "asg" and x.a[0].k == "var" and "*" in (x.a[0].ty or "") and x.a[0].name not in alias:
+                bv = cfront.base_var(x.a[1]) if x.op == "=" else None
+                if bv is not None and bv.name in alias:
+                    alias.add(x.a[0].name)
+                    grew = True
+        for st in swalk(cm.body):
+            if st.k == "decl" and st.var is not None and "*" in (st.var.ty or "") and st.init is not None and st.var.name not in alias:
+                bv = cfront.base_var(st.init)
+                if bv is not None and bv.name in alias:
+                    alias.add(st.var.name)
+                    grew = True
     for st in swalk(cm.body):
         for e in cfront.stmt_exprs(st):
             W, Rr = [], []
             cfront.writes_reads(cfront.esubst(e, cmdefs), W, Rr)
             for x in W:
-                if x.k == "idx" and estr(x.a[0]) == b:
+                if x.k == "idx" and estr(x.a[0]) in alias:
                     writes.update(y.name for y in ewalk(x.a[1]) if y.k == "int" and y.name)
             for x in Rr:
-                if x.k == "idx" and estr(x.a[0]) == b:
+                if x.k == "idx" and estr(x.a[0]) in alias:
                     reads.update(y.name for y in ewalk(x.a[1]) if y.k == "int" and y.name)
     acc = set(a)
     bad = sorted((reads - writes) - acc)
@@ -509,6 +527,7 @@ def r4(R, tus):
     R.check(len(final) == 1, "C12.R4", CP, f.line, "bloboverlaps", "returns the compacted count npk", "returned count is not the number of surviving peaks")
     # offsets of the two images in the link table
     mk = [x for st, x in cfront.all_exprs(f.body) if x.k == "call" and x.name == "dset_makeunion"]
+    R.shape(len(mk) >= 1, "C12.R4", CP, "bloboverlaps", "the dset_makeunion(link, <label of frame 2>, <label of frame 1> + n2 + 1) call")
     R.check(len(mk) == 1 and [estr(a) for a in mk[0].a] == ["link", "p2", "((p1 + %s) + 1)" % n2], "C12.R4", CP, f.line, "bloboverlaps", "union(link, p2, p1 + n2 + 1)",
             "label spaces of the two frames overlap in the disjoint set")
 
